@@ -135,9 +135,30 @@ def chain_listings_complete(prog, cg, eff, chk, rid):
             if st is None or st.kind != 'select' or st.select is None:
                 continue
             t = (st.table or '').lower()
-            if t not in CHAINS or len(st.select.tables) != 1:
+            tabs = [str(x[1] if isinstance(x, (tuple, list)) and len(x) > 1 else x).lower() for x in st.select.tables]
+            if t not in CHAINS and len(tabs) > 1:
+                t = ([x for x in tabs if x in CHAINS] or [t])[0]
+            if t not in CHAINS:
                 continue
             nxt, group = CHAINS[t]
+            if len(st.select.tables) != 1:
+                # a join is a predicate too: an inner join drops the chain rows that have no partner
+                outs_j = [e.column_ref()[1].lower() for e, alias in st.select.items if e.column_ref()]
+                if nxt not in outs_j:
+                    continue
+                n += 1
+                chk.analysed(f)
+                qn_ = (f.qualname or '').replace('djinterop::engine::', '')
+                if re.search(r'\bleft\s+(outer\s+)?join\b', st.text().lower()) and not re.search(r'\b(inner|cross)\s+join\b', st.text().lower()):
+                    chk.ok(rid, '%s: the chain rows of %s are fetched with outer joins only (no row is dropped)' % (qn_, t),
+                           locstr(s_.node))
+                else:
+                    chk.violation(rid, '%s|chain listing joined with %s' % (qn_, ','.join(x for x in tabs if x != t)),
+                                  locstr(s_.node),
+                                  '%s: the chain rows of %s are fetched through a join with %s: a chain row without a partner '
+                                  'row is a missing link, the walk from the tail stops there and every row in front of it is '
+                                  'absent from the listing' % (qn_, t, ','.join(x for x in tabs if x != t)))
+                continue
             outs = []
             for e, alias in st.select.items:
                 cr = e.column_ref()
@@ -845,3 +866,97 @@ def positive_control(chk, rid, rule, expected):
             rid, ', '.join(missing), rec.hits[:4]))
     else:
         chk.extra.setdefault('positive_controls', {})[rid] = sorted(expected)
+
+
+def writes_not_skipped_on_stored_state(prog, cg, eff, chk, rid, funcs, assume_schema=None, enum_order=None):
+    """A mutator stores what it is given whatever is stored already: none of its writes that carry an argument
+    is made under a path condition that compares the argument with what the database holds now (`if (stored ==
+    wanted) return;`, `if (wanted != current()) write`).  Such a short cut is only as exact as the read side it
+    compares with - a NULL that reads back as a default, a derived accessor that looks at a column the function
+    has just overwritten - and then the call returns normally with the old value left in place.  (A test of
+    stored state alone - does the row exist - and a test of the argument alone are not comparisons of the two.)"""
+    from .. import valueflow as vf
+    n = 0
+    for f in funcs:
+        if f.body is None or f.is_pattern:
+            continue
+        ip = vf.Interp(prog, cg, eff, assume_schema, enum_order)
+        try:
+            ip.run(f)
+        except AnalysisBroken:
+            raise
+        short = '::'.join((f.qualname or '').split('::')[-2:])
+        bad = None
+        nw = 0
+        by_loc = {}
+        for w in ip.writes:
+            vin = any(x[0] == 'in' for x in vf.leaves(w.value))
+            if not vin:
+                continue
+            nw += 1
+            gates = {}
+            for c in w.conds:
+                for cmp_, pol in _comparisons(c):
+                    ls = list(vf.leaves(cmp_))
+                    if any(x[0] == 'loc' for x in ls) and any(x[0] == 'in' for x in ls):
+                        # comparing the wanted value with the very column this write stores (and nothing else) is
+                        # exact: equal means there is nothing to write
+                        # (a raw column of the written row, carried by copies only - not a value that a getter or a
+                        # derived accessor computed from it - compared with the wanted value)
+                        from .c06 import _plain_copy
+                        sides = [a for a in cmp_[2] if any(x[0] == 'loc' for x in vf.leaves(a))]
+                        if sides and any(_plain_copy(a) and all(x[1].lower() == w.table.lower() for x in vf.leaves(a)
+                                                                 if x[0] == 'loc') for a in sides):
+                            continue
+                        gates[(vf.shape(cmp_), pol)] = cmp_
+            by_loc.setdefault((w.table, w.column, w.disc), []).append((w, gates))
+        # a location is skipped (not merely written differently in two branches) when one and the same comparison,
+        # with one polarity, stands above every write of it
+        for loc_, lst in by_loc.items():
+            common = set(lst[0][1])
+            for _, g in lst[1:]:
+                common &= set(g)
+            if common and bad is None:
+                k_ = sorted(common)[0]
+                bad = (lst[0][0], lst[0][1][k_])
+        if not nw:
+            continue
+        n += 1
+        chk.analysed(f)
+        if bad is None:
+            chk.ok(rid, '%s: %d argument-carrying write(s), none under a comparison of the argument with stored state' % (
+                short, nw), locstr(f.node))
+        else:
+            w, c = bad
+            chk.violation(rid, '%s|write of %s.%s skipped on a comparison with stored state' % (short, w.table, w.column),
+                          locstr(f.node),
+                          '%s writes %s.%s only when %s - a comparison of the argument with what is stored now: the call '
+                          'returns normally without writing whenever the read side makes the two look equal' % (
+                              short, w.table, w.column, vf.shape(c)[:160]))
+    return n
+
+
+def _comparisons(t, depth=0, pol=True):
+    """the ==, != sub-terms of a condition term (through !, &&, ||, helper calls that were inlined)"""
+    out = []
+    if not isinstance(t, tuple) or not t or depth > 30:
+        return out
+    if t[0] == 'op' and t[1] in ('==', '!='):
+        out.append((t, pol))
+        return out
+    if t[0] == 'op':
+        for a in t[2]:
+            out += _comparisons(a, depth + 1, (not pol) if t[1] == '!' else pol)
+    elif t[0] in ('call', 'callm') and len(t) > 3 and isinstance(t[3], tuple):
+        out += _comparisons(t[3], depth + 1, pol)
+    elif t[0] == 'phi':
+        for a in t[1]:
+            out += _comparisons(a, depth + 1, pol)
+    elif t[0] == 'ite':
+        for a in t[1:]:
+            out += _comparisons(a, depth + 1, pol)
+    return out
+
+def _mutators_of(prog, classes):
+    return [f for f in prog.functions.values() if f.cls in classes and f.body is not None and not f.is_pattern and
+            (f.name.startswith('set_') or f.name in ('update', 'add', 'add_back', 'remove', 'add_track', 'remove_track'))]
